@@ -81,7 +81,29 @@ struct Case {
     explicit_fifo: bool,
     /// `/dev/null` (a character device) is named on the command line as well
     devnull: bool,
+    /// when not empty: the filter switches exactly as written on the command line, in order, negations and
+    /// repetitions included (tokens of the driver op `c05.flags`); replaces `flags` / `unrestricted` / `no_ignore`
+    flagseq: Vec<String>,
+    /// per entry of `globs`: 0 = `-g`, 2 = `--iglob` (command-line order is the order of `globs`)
+    globkinds: Vec<u8>,
+    /// `--glob-case-insensitive`
+    gci: bool,
+    /// the explicitly named path is a symbolic link to a regular file outside the tree
+    explicit_symlink: bool,
+    /// `--ignore-file-case-insensitive`
+    ifci: bool,
+    /// the global gitignore is named by `core.excludesFile = ~/…` in `$HOME/.gitconfig` instead of living at
+    /// `$XDG_CONFIG_HOME/git/ignore`
+    gl_cfg: bool,
 }
+
+const TOKS: [(&str, &str); 19] = [
+    ("h1", "--hidden"), ("h0", "--no-hidden"), ("n1", "--no-ignore"), ("n0", "--ignore"),
+    ("d1", "--no-ignore-dot"), ("d0", "--ignore-dot"), ("e1", "--no-ignore-exclude"), ("e0", "--ignore-exclude"),
+    ("f1", "--no-ignore-files"), ("f0", "--ignore-files"), ("g1", "--no-ignore-global"), ("g0", "--ignore-global"),
+    ("p1", "--no-ignore-parent"), ("p0", "--ignore-parent"), ("v1", "--no-ignore-vcs"), ("v0", "--ignore-vcs"),
+    ("r1", "--no-require-git"), ("r0", "--require-git"), ("u", "-u"),
+];
 
 fn list_or_dash(v: Vec<String>) -> String {
     if v.is_empty() {
@@ -95,7 +117,7 @@ impl Case {
     fn line(&self) -> String {
         let f: String = self.flags.iter().map(|b| if *b { '1' } else { '0' }).collect();
         format!(
-            "walk F={} U={} N={} M={} J={} E={} R={} G={} GL={} IF={} GB={} TY={} X={} XF={} DN={}",
+            "walk F={} U={} N={} M={} J={} E={} R={} G={} GL={} IF={} GB={} TY={} X={} XF={} DN={} FS={} GK={} GCI={} XS={} IC={} GC={}",
             f,
             self.unrestricted,
             self.no_ignore as u8,
@@ -111,6 +133,12 @@ impl Case {
             self.explicit.as_ref().map(|g| hex(g)).unwrap_or("~".into()),
             self.explicit_fifo as u8,
             self.devnull as u8,
+            list_or_dash(self.flagseq.clone()),
+            list_or_dash(self.globkinds.iter().map(|k| k.to_string()).collect()),
+            self.gci as u8,
+            self.explicit_symlink as u8,
+            self.ifci as u8,
+            self.gl_cfg as u8,
         )
     }
     fn parse(s: &str) -> Option<Case> {
@@ -184,6 +212,12 @@ impl Case {
             explicit: opt("X")?,
             explicit_fifo: kv.get("XF").copied() == Some("1"),
             devnull: kv.get("DN").copied() == Some("1"),
+            flagseq: items("FS").into_iter().map(|s| s.to_string()).collect(),
+            globkinds: items("GK").into_iter().map(|s| s.parse().unwrap_or(0)).collect(),
+            gci: kv.get("GCI").copied() == Some("1"),
+            explicit_symlink: kv.get("XS").copied() == Some("1"),
+            ifci: kv.get("IC").copied() == Some("1"),
+            gl_cfg: kv.get("GC").copied() == Some("1"),
         })
     }
     /// the flag record the command line amounts to (the model's `Flags`)
@@ -252,8 +286,13 @@ fn gen_rule_line(rng: &mut Rng, c: &Case, from: &Loc) -> String {
     let is_dir = c.entries[&e];
     let name = String::from_utf8_lossy(e.rsplit(|b| *b == b'/').next().unwrap()).to_string();
     let rel = String::from_utf8_lossy(&rel_from(from, &e)).to_string();
-    let mut l = match rng.below(10) {
+    let mut l = match rng.below(14) {
         0 | 1 | 2 => name.clone(),
+        // lifted restrictions: bracket classes, `**`, a lone `!`, case variants (for --ignore-file-case-insensitive)
+        10 => format!("[{}x]{}", &name[..1], &name[1..]),
+        11 => format!("**/{}", name),
+        12 => ["!", "**", "a/**", "*/"][rng.below(4)].to_string(),
+        13 => name.to_uppercase(),
         3 => "*.a".to_string(),
         4 => format!("/{}", rel),
         5 => rel.clone(),
@@ -288,12 +327,34 @@ fn gen_case(rng: &mut Rng) -> Case {
         explicit: None,
         explicit_fifo: false,
         devnull: false,
+        flagseq: vec![],
+        globkinds: vec![],
+        gci: false,
+        explicit_symlink: false,
+        ifci: false,
+        gl_cfg: false,
     };
     gen_entries(rng, &mut c.entries, b"", 0);
     for i in 0..8 {
         c.flags[i] = rng.chance(1, 6);
     }
-    match rng.below(12) {
+    if rng.chance(1, 3) {
+        // the switches as a sequence: negations, repetitions, any order; at most three `-u`
+        c.flags = [false; 8];
+        let n = rng.range(1, 6);
+        let mut us = 0;
+        for _ in 0..n {
+            let t = TOKS[rng.below(TOKS.len())].0;
+            if t == "u" {
+                us += 1;
+                if us > 3 {
+                    continue;
+                }
+            }
+            c.flagseq.push(t.to_string());
+        }
+    }
+    match rng.below(if c.flagseq.is_empty() { 12 } else { 1000 }) {
         0 => c.unrestricted = 1,
         1 => c.unrestricted = 2,
         2 => c.no_ignore = true,
@@ -369,9 +430,21 @@ fn gen_case(rng: &mut Rng) -> Case {
             c.explicit = Some((*rng.pick(&files)).clone());
             // explicitly named paths that are neither regular files nor directories
             c.explicit_fifo = rng.chance(1, 3);
+            c.explicit_symlink = !c.explicit_fifo && rng.chance(1, 3);
         }
     }
     c.devnull = rng.chance(1, 12);
+    // `--iglob` among the `-g` globs, in any command-line position; `--glob-case-insensitive`
+    c.globkinds = c.globs.iter().map(|_| if rng.chance(1, 4) { 2 } else { 0 }).collect();
+    if c.globs.len() >= 1 && rng.chance(1, 6) {
+        // an upper-case spelling of a name pattern so that case matters
+        let i = rng.below(c.globs.len());
+        c.globs[i] = c.globs[i].to_uppercase();
+        c.globkinds[i] = 2;
+    }
+    c.gci = !c.globs.is_empty() && rng.chance(1, 10);
+    c.ifci = rng.chance(1, 6);
+    c.gl_cfg = c.global.is_some() && rng.chance(1, 3);
     c
 }
 
@@ -422,7 +495,11 @@ fn run_case(c: &Case, env: &mut Env, drv: &mut Driver, rep: &mut Report, quiet: 
             std::fs::create_dir_all(&full).unwrap();
         } else {
             std::fs::create_dir_all(full.parent().unwrap()).unwrap();
-            if c.explicit_fifo && c.explicit.as_ref() == Some(p) {
+            if c.explicit_symlink && c.explicit.as_ref() == Some(p) {
+                let target = base.join("link-target.txt");
+                std::fs::write(&target, b"x\n").unwrap();
+                std::os::unix::fs::symlink(&target, &full).unwrap();
+            } else if c.explicit_fifo && c.explicit.as_ref() == Some(p) {
                 // `--files` only lists it; nothing opens the FIFO, so no writer is needed
                 let st = Command::new("mkfifo").arg(&full).status();
                 if !st.map(|s| s.success()).unwrap_or(false) {
@@ -433,7 +510,7 @@ fn run_case(c: &Case, env: &mut Env, drv: &mut Driver, rep: &mut Report, quiet: 
             }
         }
     }
-    let mut add_entry = |entries: &mut BTreeMap<Vec<u8>, bool>, loc: &Loc, rel: &str, is_dir: bool| {
+    let add_entry = |entries: &mut BTreeMap<Vec<u8>, bool>, loc: &Loc, rel: &str, is_dir: bool| {
         let pre: Option<Vec<u8>> = match loc {
             Loc::R => Some(vec![]),
             Loc::Sub(p) => Some(p.clone()),
@@ -464,7 +541,12 @@ fn run_case(c: &Case, env: &mut Env, drv: &mut Driver, rep: &mut Report, quiet: 
         add_entry(&mut entries, loc, name, false);
     }
     if let Some(g) = &c.global {
-        std::fs::write(base.join("xdg/git/ignore"), g).unwrap();
+        if c.gl_cfg {
+            std::fs::write(base.join("home/.gitconfig"), b"[user]\n\tname = x\n[core]\n\texcludesFile = ~/my-global-ignore\n").unwrap();
+            std::fs::write(base.join("home/my-global-ignore"), g).unwrap();
+        } else {
+            std::fs::write(base.join("xdg/git/ignore"), g).unwrap();
+        }
     }
     let mut igfile_paths = vec![];
     for (i, g) in c.igfiles.iter().enumerate() {
@@ -489,22 +571,36 @@ fn run_case(c: &Case, env: &mut Env, drv: &mut Driver, rep: &mut Report, quiet: 
     if c.j1 {
         cmd.arg("-j1");
     }
-    for i in 0..8 {
-        if c.flags[i] {
-            cmd.arg(FLAG_NAMES[i]);
+    if c.flagseq.is_empty() {
+        for i in 0..8 {
+            if c.flags[i] {
+                cmd.arg(FLAG_NAMES[i]);
+            }
+        }
+        if c.no_ignore {
+            cmd.arg("--no-ignore");
+        }
+        for _ in 0..c.unrestricted {
+            cmd.arg("-u");
+        }
+    } else {
+        for t in &c.flagseq {
+            if let Some((_, name)) = TOKS.iter().find(|(k, _)| k == t) {
+                cmd.arg(name);
+            }
         }
     }
-    if c.no_ignore {
-        cmd.arg("--no-ignore");
+    if c.gci {
+        cmd.arg("--glob-case-insensitive");
     }
-    for _ in 0..c.unrestricted {
-        cmd.arg("-u");
+    if c.ifci {
+        cmd.arg("--ignore-file-case-insensitive");
     }
     for p in &igfile_paths {
         cmd.arg("--ignore-file").arg(p);
     }
-    for g in &c.globs {
-        cmd.arg("-g").arg(g);
+    for (i, g) in c.globs.iter().enumerate() {
+        cmd.arg(if c.globkinds.get(i) == Some(&2) { "--iglob" } else { "-g" }).arg(g);
     }
     for (i, (_, g)) in c.types.iter().enumerate() {
         cmd.arg("--type-add").arg(format!("vt{}:{}", i, g));
@@ -563,7 +659,24 @@ fn run_case(c: &Case, env: &mut Env, drv: &mut Driver, rep: &mut Report, quiet: 
         }
     }
     // ---- the model
-    let f: String = c.effective_flags().iter().map(|b| if *b { '1' } else { '0' }).collect();
+    // the flag record the command line amounts to: for a switch sequence it is computed by the MODEL (`foldToks`)
+    let eff: [bool; 8] = if c.flagseq.is_empty() {
+        c.effective_flags()
+    } else {
+        let r = drv.ask(&format!("c05.flags (toks {})", c.flagseq.join(" ")));
+        let rb = r.as_bytes();
+        if rb.len() != 8 {
+            out.push(mk("impl_vs_model", "", TIE, format!("model reply {:?} to c05.flags", r)));
+            std::fs::remove_dir_all(&base).ok();
+            return out;
+        }
+        let mut e = [false; 8];
+        for i in 0..8 {
+            e[i] = rb[i] == b'1';
+        }
+        e
+    };
+    let f: String = eff.iter().map(|b| if *b { '1' } else { '0' }).collect();
     let mut dirs: BTreeMap<PathBuf, (bool, [Vec<u8>; 4])> = BTreeMap::new();
     for loc in &c.dotgit {
         dirs.entry(loc.abs(&base)).or_insert((false, Default::default())).0 = true;
@@ -589,12 +702,21 @@ fn run_case(c: &Case, env: &mut Env, drv: &mut Driver, rep: &mut Report, quiet: 
     let files: Vec<(&Vec<u8>, &bool)> = entries.iter().filter(|(_, d)| !**d).collect();
     let ents: Vec<String> = files.iter().map(|(p, _)| format!("(0 {})", p.split(|b| *b == b'/').map(hex).collect::<Vec<_>>().join(" "))).collect();
     let req = format!(
-        "c05.walk (flags {}) (ci 0) (cwd {}) (global {}) (igfiles {}) (globs {}) (types {}) (typessel {}) (root {} {}) (dirs {}) (entries {})",
+        "c05.walk (flags {}) (ci {}) (cwd {}) (global {}) (igfiles {}) (globs {}) (types {}) (typessel {}) (root {} {}) (dirs {}) (entries {})",
         f,
+        c.ifci as u8,
         hex(cwd.as_os_str().as_bytes()),
         c.global.as_ref().map(|g| lines_sx(g)).unwrap_or_default(),
         c.igfiles.iter().map(|g| format!("(f {})", lines_sx(g)).replace(" )", ")")).collect::<Vec<_>>().join(" "),
-        c.globs.iter().map(|g| cps(g)).collect::<Vec<_>>().join(" "),
+        c.globs
+            .iter()
+            .enumerate()
+            .map(|(i, g)| {
+                let kind = if c.globkinds.get(i) == Some(&2) { "(li " } else if c.gci { "(lg " } else { "(l " };
+                cps(g).replacen("(l ", kind, 1).replacen("(l)", &format!("{})", kind.trim_end()), 1)
+            })
+            .collect::<Vec<_>>()
+            .join(" "),
         c.types.iter().map(|(n, g)| format!("(t {} {})", *n as u8, g.chars().map(|ch| (ch as u32).to_string()).collect::<Vec<_>>().join(" "))).collect::<Vec<_>>().join(" "),
         c.types.iter().any(|(n, _)| !*n) as u8,
         hex(&root_given),
@@ -605,7 +727,7 @@ fn run_case(c: &Case, env: &mut Env, drv: &mut Driver, rep: &mut Report, quiet: 
     .replace(" )", ")");
     let m = drv.ask(&req);
     let mb = m.as_bytes();
-    if mb.len() != 2 * files.len() {
+    if mb.len() != 5 * files.len() {
         out.push(mk("impl_vs_model", "", TIE, format!("model reply {:?} for {}", m, req)));
         std::fs::remove_dir_all(&base).ok();
         return out;
@@ -619,16 +741,56 @@ fn run_case(c: &Case, env: &mut Env, drv: &mut Driver, rep: &mut Report, quiet: 
             rep.eval();
         }
         let imp = listed.contains(*p);
-        let mm = mb[2 * i] == b'1' || c.explicit.as_ref() == Some(*p);
-        let ms = mb[2 * i + 1] == b'1' || c.explicit.as_ref() == Some(*p);
+        let ex = c.explicit.as_ref() == Some(*p);
+        let mm = mb[5 * i] == b'1' || ex;
+        let ms = mb[5 * i + 1] == b'1' || ex;
+        // the model with exactly one repair: re-basing / override order as documented / --ignore-file files folded
+        let m_rebase = mb[5 * i + 2] == b'1' || ex;
+        let m_order = mb[5 * i + 3] == b'1' || ex;
+        let m_xci = mb[5 * i + 4] == b'1' || ex;
         if imp != mm {
             out.push(mk("impl_vs_model", "", TIE, format!("file {:?}: rg lists = {}, model = {}", show(p), imp, mm)));
         }
         if imp != ms {
-            let class = if parent_anchored && !c.effective_flags()[5] { "parent-ignore-rebased-path" } else { "" };
+            // `parent-ignore-rebased-path` is attributed only when its mechanism is at work for THIS file: the model
+            // (which re-bases paths like dir.rs does) predicts rg's answer, the spec — the same model with the one
+            // switch `fixRebase` — answers differently (so re-basing is what decides this file), an ignore file ABOVE
+            // the search root carries an anchored rule, and parent ignore files are in force
+            // `iglob-added-after-glob`: hiargs.rs adds every --iglob glob after every -g glob, so a later -g cannot
+            // override an earlier --iglob; attributed only when an --iglob precedes a -g on this command line, the
+            // model predicts rg, and repairing the ORDER alone yields the documented answer for this file
+            let iglob_before_glob = (0..c.globs.len()).any(|i| c.globkinds.get(i) == Some(&2) && (i + 1..c.globs.len()).any(|j| c.globkinds.get(j) != Some(&2)));
+            let class = if !(imp == mm && mm != ms) {
+                ""
+            } else if m_rebase == ms && parent_anchored && !eff[5] {
+                "parent-ignore-rebased-path"
+            } else if m_order == ms && iglob_before_glob {
+                "iglob-added-after-glob"
+            } else if m_xci == ms && c.ifci && !c.igfiles.is_empty() && !eff[3] {
+                // `explicit-ignore-file-case-sensitive`: --ignore-file files are matched case-sensitively even under
+                // --ignore-file-case-insensitive; attributed only when both are on this command line, --no-ignore-files
+                // is not in force, and folding those files ALONE yields the documented answer for this file
+                "explicit-ignore-file-case-sensitive"
+            } else if parent_anchored && !eff[5] {
+                // several repairs are needed for this file; the preconditions of this one hold
+                "parent-ignore-rebased-path"
+            } else if iglob_before_glob {
+                "iglob-added-after-glob"
+            } else if c.ifci && !c.igfiles.is_empty() && !eff[3] {
+                "explicit-ignore-file-case-sensitive"
+            } else {
+                ""
+            };
+            if !quiet {
+                if class.is_empty() {
+                    rep.branch("class:none:unclassified-deviation");
+                } else {
+                    rep.branch(&format!("class:{}:attributed", class));
+                }
+            }
             out.push(mk("impl_vs_spec", class, TIE_DOC, format!("file {:?}: rg lists = {}, documented precedence (parent ignore files applied to the real path) = {}", show(p), imp, ms)));
         }
-        if imp != (mb[2 * i] == b'1') {
+        if imp != (mb[5 * i] == b'1') {
             conflict = true;
         }
     }
@@ -677,10 +839,13 @@ fn run_case(c: &Case, env: &mut Env, drv: &mut Driver, rep: &mut Report, quiet: 
             if c.explicit_fifo {
                 rep.branch("root:explicit-path-is-a-FIFO");
             }
+            if c.explicit_symlink {
+                rep.branch("root:explicit-path-is-a-symlink");
+            }
             if let Some(p) = &c.explicit {
                 let idx = files.iter().position(|(q, _)| *q == p);
                 if let Some(i) = idx {
-                    if mb[2 * i] == b'0' {
+                    if mb[5 * i] == b'0' {
                         rep.branch("explicit-file-would-have-been-filtered");
                     }
                 }
@@ -704,6 +869,8 @@ fn run_case(c: &Case, env: &mut Env, drv: &mut Driver, rep: &mut Report, quiet: 
     out
 }
 
+static SHRUNK: std::sync::Mutex<BTreeMap<String, usize>> = std::sync::Mutex::new(BTreeMap::new());
+
 fn run_and_report(c: &Case, env: &mut Env, drv: &mut Driver, rep: &mut Report) {
     let vs = run_case(c, env, drv, rep, false);
     let mut seen: Vec<(String, String)> = vec![];
@@ -713,6 +880,17 @@ fn run_and_report(c: &Case, env: &mut Env, drv: &mut Driver, rep: &mut Report) {
             continue;
         }
         seen.push(key);
+        // a recorded class is shrunk only the first two times it shows up in a run (shrinking re-runs rg many times)
+        if !v.class.is_empty() {
+            let mut m = SHRUNK.lock().unwrap();
+            let n = m.entry(v.class.clone()).or_insert(0);
+            *n += 1;
+            if *n > 2 {
+                drop(m);
+                rep.violation(v);
+                continue;
+            }
+        }
         // shrink: drop rule files, flags, sources, entries
         let mut cur = c.clone();
         let mut best = v.clone();
@@ -801,9 +979,9 @@ fn main() {
     let mut rep = Report::new(
         "C05",
         "one evaluation = one file of a generated tree under one command line; non-trivial = at least two rule sources are present and the command lists some files and hides others (distinct by case text). \
-         Trees p2/p1/R/… with rule files (.rgignore, .ignore, .gitignore, .git/info/exclude) at depths -2…+3 relative to the search root, global gitignore via XDG_CONFIG_HOME, --ignore-file, -g, --type-add/-t/-T, \
+         Trees p2/p1/R/… with rule files (.rgignore, .ignore, .gitignore, .git/info/exclude) at depths -2…+3 relative to the search root, global gitignore via XDG_CONFIG_HOME or via core.excludesFile = ~/… in $HOME/.gitconfig, --ignore-file, -g, --type-add/-t/-T, \
          .git at any of those depths or nowhere, hidden names, names ending in '.', conflicting ignore/whitelist lines (names, *.ext, anchored paths, dir-only, negations), every flag of the property incl. --no-ignore and -u/-uu, \
-         roots given as nothing (./), relative, absolute, '.', plus an explicitly named file (a regular file, or a FIFO made with mkfifo in a third of these cases) and now and then /dev/null as a further explicit path. Rule lines stay inside the gitignore grammar on which C04 agrees with git (no bracket classes, no lone '!'); --max-depth, symlinks and --iglob are not generated.",
+         roots given as nothing (./), relative, absolute, '.', plus an explicitly named file (a regular file, a FIFO made with mkfifo, or a symbolic link to a file outside the tree) and now and then /dev/null as a further explicit path. Rule lines: names, *.ext, anchored paths, dir-only, negations, bracket classes, **, a lone '!', upper-case spellings (with and without --ignore-file-case-insensitive); the filter switches also as sequences with negations and repetitions in any order (--no-ignore --ignore-vcs, -uu --no-hidden; effective flags computed by the model's foldToks), -g mixed with --iglob in any order and --glob-case-insensitive. Not generated: --max-depth (a traversal bound, not a filter; probed by hand: an explicitly named file is listed under --max-depth 0), symlinks inside the tree without -L are never listed by --files anyway, RIPGREP_CONFIG_PATH (its lines are prepended arguments, i.e. an earlier part of the switch sequence; probed by hand).",
     );
     std::fs::create_dir_all(&args.scratch).unwrap();
     // nothing above the scratch directory may influence the walk
